@@ -747,12 +747,161 @@ fn mode_extract(a: &Args) {
     println!("{}", json!({"cases": case - first, "lines": t.lines, "paths": counters}));
 }
 
+// ------------------------------------------------------------------------------------------------ volumes mode
+
+/// a stored zip with the given members
+fn small_zip(path: &Path, members: &[(String, Vec<u8>)]) {
+    let f = std::fs::File::create(path).unwrap();
+    let mut w = zip::ZipWriter::new(f);
+    for (n, c) in members {
+        let opts = zip::write::SimpleFileOptions::default().compression_method(zip::CompressionMethod::Stored);
+        w.start_file(n.as_str(), opts).unwrap();
+        w.write_all(c).unwrap();
+    }
+    w.finish().unwrap();
+}
+
+/// split `bytes` into n non-empty pieces
+fn split_n(rng: &mut Rng, bytes: &[u8], n: usize) -> Vec<Vec<u8>> {
+    let mut cuts: Vec<usize> = Vec::new();
+    while cuts.len() < n - 1 {
+        let c = rng.range(1, bytes.len() as u64 - 1) as usize;
+        if !cuts.contains(&c) {
+            cuts.push(c);
+        }
+    }
+    cuts.sort();
+    cuts.push(bytes.len());
+    let mut out = Vec::new();
+    let mut prev = 0;
+    for c in cuts {
+        out.push(bytes[prev..c].to_vec());
+        prev = c;
+    }
+    out
+}
+
+/// a real multi-volume archive next to a look-alike neighbour: volume discovery and extract_archives on the opened volume
+fn mode_volumes(a: &Args) {
+    use adlt::utils::unzip::{archive_supported_fileexts, search_dir_for_multi_volume_archive};
+    let mut t = Trace::create(&a.str("--out", "trace.ndjson"));
+    let seed = a.num("--seed", 1);
+    let mut rng = Rng::new(seed);
+    let base = PathBuf::from(a.str("--tmp", "/verif/work/C20/tmp")).join("v");
+    let _ = std::fs::remove_dir_all(&base);
+    std::fs::create_dir_all(&base).unwrap();
+    let log = slog::Logger::root(slog::Discard, slog::o!());
+    let cancel = Arc::new(AtomicBool::new(false));
+    let sevenz = archive_supported_fileexts().iter().any(|e| *e == ".7z.001");
+    let mut counters: BTreeMap<String, u64> = BTreeMap::new();
+    let mut case = 0u64;
+    let run_id = seed ^ (std::process::id() as u64) << 20;
+    for scn in read_ndjson(a.get("--scenarios").expect("--scenarios")) {
+        let mut bump = |k: &str| *counters.entry(k.to_string()).or_insert(0) += 1;
+        // unique directory per case AND per run (list_archive_contents_cached is keyed by the archive path)
+        let cdir = base.join(format!("r{}c{}", run_id, case));
+        let adir = cdir.join("arch");
+        let tdir = cdir.join("t");
+        std::fs::create_dir_all(&adir).unwrap();
+        std::fs::create_dir_all(&tdir).unwrap();
+        let entries = scn["dir"].as_array().unwrap();
+        let open = scn["open"].as_u64().unwrap() as usize;
+        // the neighbour is the LARGER archive in two of three cases (then the end of the wrong stream is the neighbour's directory)
+        let big = case % 3 != 2;
+        let lens: [usize; 4] = [
+            rng.range(10, 60) as usize,
+            rng.range(1, 40) as usize,
+            (if big { rng.range(300, 600) } else { rng.range(1, 8) }) as usize,
+            (if big { rng.range(200, 400) } else { rng.range(1, 8) }) as usize,
+        ];
+        let archs: Vec<Vec<(String, Vec<u8>)>> = vec![
+            vec![("new1.dlt".to_string(), rng.bytes(lens[0])), ("sub/new2.dlt".to_string(), rng.bytes(lens[1]))],
+            vec![("old1.dlt".to_string(), rng.bytes(lens[2])), ("sub/old2.dlt".to_string(), rng.bytes(lens[3]))],
+        ];
+        let mut names: Vec<String> = Vec::new();
+        for arch in 1..=2usize {
+            let mine: Vec<&Value> = entries.iter().filter(|e| e["arch"].as_u64() == Some(arch as u64)).collect();
+            if mine.is_empty() {
+                continue;
+            }
+            let zp = cdir.join(format!("whole{}.bin", arch));
+            small_zip(&zp, &archs[arch - 1]);
+            let bytes = std::fs::read(&zp).unwrap();
+            let _ = std::fs::remove_file(&zp);
+            let pieces = split_n(&mut rng, &bytes, mine.len());
+            // pieces are assigned in the order of the volume numbers
+            let mut order: Vec<&Value> = mine.clone();
+            order.sort_by_key(|e| e["num"].as_u64().unwrap());
+            for (e, piece) in order.iter().zip(pieces.iter()) {
+                let name = format!("{}{}.{:0w$}", e["prefix"].as_str().unwrap(), e["ext"].as_str().unwrap(), e["num"].as_u64().unwrap(),
+                    w = e["nd"].as_u64().unwrap() as usize);
+                std::fs::write(adir.join(&name), piece).unwrap();
+            }
+        }
+        let mut dir_hdr = Vec::new();
+        for e in entries {
+            let name = format!("{}{}.{:0w$}", e["prefix"].as_str().unwrap(), e["ext"].as_str().unwrap(), e["num"].as_u64().unwrap(),
+                w = e["nd"].as_u64().unwrap() as usize);
+            let mut h = e.clone();
+            h["name"] = json!(name);
+            dir_hdr.push(h);
+            names.push(name);
+        }
+        let dec = &entries[entries.len() - 1];
+        bump(&format!("neighbour_{}{}_{}digits", dec["prefix"].as_str().unwrap(), dec["ext"].as_str().unwrap(), dec["nd"]));
+        bump(if entries[open - 1]["arch"].as_u64() == Some(1) { "opened_real_archive" } else { "opened_neighbour" });
+        if big { bump("neighbour_is_larger"); } else { bump("neighbour_is_smaller"); }
+        let archs_hdr: Vec<Vec<Value>> = archs.iter().map(|ms| ms.iter().map(|(n, c)| json!({"name": n, "len": c.len(), "hash": hash31(c)})).collect()).collect();
+        t.ev(json!({"ev":"reset","case":case,"hdr":{"dir":dir_hdr,"open":open,"sevenz":sevenz,"archs":archs_hdr}}));
+        let opened = adir.join(&names[open - 1]);
+        std::env::set_var("TMPDIR", &tdir);
+        let res = catch(std::panic::AssertUnwindSafe(|| {
+            let found = search_dir_for_multi_volume_archive(&opened);
+            let found_idx: Vec<usize> = found.iter().map(|p| names.iter().position(|n| adir.join(n) == *p).map(|i| i + 1).unwrap_or(0)).collect();
+            let mut temp_dirs: Vec<(String, tempfile::TempDir)> = Vec::new();
+            let reported = extract_archives(opened.display().to_string(), &mut temp_dirs, &cancel, &log);
+            let tpath = temp_dirs.first().map(|(_, d)| d.path().to_path_buf());
+            let mut rep = Vec::new();
+            for r in &reported {
+                let p = PathBuf::from(r);
+                let rel = tpath.as_ref().and_then(|tp| p.strip_prefix(tp).ok().map(|x| x.display().to_string()));
+                let (mut arch, mut m) = (0usize, 0usize);
+                if let Some(rel) = &rel {
+                    for (ai, ms) in archs.iter().enumerate() {
+                        if let Some(mi) = ms.iter().position(|(n, _)| n == rel) {
+                            arch = ai + 1;
+                            m = mi + 1;
+                        }
+                    }
+                }
+                let data = std::fs::read(&p).unwrap_or_default();
+                rep.push(json!({"arch":arch,"m":m,"inside":rel.is_some(),"len":data.len(),"hash":hash31(&data),"path":r}));
+            }
+            (found_idx, rep)
+        }));
+        match res {
+            Ok((found_idx, rep)) => {
+                t.ev(json!({"ev":"search","found":found_idx}));
+                t.ev(json!({"ev":"extract","reported":rep}));
+                t.ev(json!({"ev":"end"}));
+            }
+            Err(msg) => t.ev(json!({"ev":"panic","msg":msg})),
+        }
+        let _ = std::fs::remove_dir_all(&cdir);
+        case += 1;
+    }
+    t.flush();
+    let _ = std::fs::remove_dir_all(&base);
+    println!("{}", json!({"cases": case, "lines": t.lines, "paths": counters}));
+}
+
 fn main() {
     quiet_panics();
     let a = Args::from_env();
     match a.str("--mode", "seek").as_str() {
         "seek" => mode_seek(&a),
         "extract" => mode_extract(&a),
+        "volumes" => mode_volumes(&a),
         m => panic!("unknown mode {}", m),
     }
 }
